@@ -16,6 +16,8 @@ pub struct C16;
 /// still be the order of the encodings.
 #[derive(Clone, Copy, Debug, PartialEq, Eq)]
 pub enum TestReg {
+    MinusSeventy,
+    MinusNine,
     MinusTwo,
     Zero,
     Five,
@@ -24,6 +26,8 @@ pub enum TestReg {
 impl coset::iana::EnumI64 for TestReg {
     fn from_i64(i: i64) -> Option<Self> {
         match i {
+            -70 => Some(TestReg::MinusSeventy),
+            -9 => Some(TestReg::MinusNine),
             -2 => Some(TestReg::MinusTwo),
             0 => Some(TestReg::Zero),
             5 => Some(TestReg::Five),
@@ -33,6 +37,8 @@ impl coset::iana::EnumI64 for TestReg {
     }
     fn to_i64(&self) -> i64 {
         match self {
+            TestReg::MinusSeventy => -70,
+            TestReg::MinusNine => -9,
             TestReg::MinusTwo => -2,
             TestReg::Zero => 0,
             TestReg::Five => 5,
@@ -50,7 +56,7 @@ fn custom_registry_pairs(ctx: &mut Ctx) {
     use coset::CborSerializable;
     type L = coset::RegisteredLabelWithPrivate<TestReg>;
     type R = coset::RegisteredLabel<TestReg>;
-    let mut cands: Vec<MLabel> = [-2i64, 0, 5, 70000, 65000, 65001, 65535, -100001, -200000, i64::MIN].iter().map(|i| MLabel::Int(*i)).collect();
+    let mut cands: Vec<MLabel> = [-2i64, -9, -70, 0, 5, 70000, 65000, 65001, 65535, -100001, -200000, i64::MIN].iter().map(|i| MLabel::Int(*i)).collect();
     for t in ["", "a", "aa", "\u{e9}", "b"] {
         cands.push(MLabel::Text(t.to_string()));
     }
